@@ -133,6 +133,26 @@ Section SPANS.
       unfold matched_of. apply NoDup_map_filter. exact spans_of_keys_NoDup.
     - intros m. rewrite mem_spans, in_map_iff. split; intros [sp [H1 H2]]; exists sp; split; auto.
   Qed.
+
+  (* without the cap: the span ids of a group are pairwise distinct, and so are the matched spans of a trace *)
+  Lemma group_spans_NoDup' g : In g (group_rows same_tr T) -> NoDup (map m_span g).
+  Proof.
+    intros Hg. destruct (group_rows_spec same_tr same_tr_refl same_tr_sym same_tr_trans T) as [Hcls _].
+    destruct (Hcls _ Hg) as [r0 [g' [E Ef]]].
+    assert (Hk : NoDup (map mkey g)) by (rewrite Ef; apply NoDup_map_filter; exact sql_spans_NoDup).
+    apply (NoDup_map_inv (fun s => (m_trace r0, s))). rewrite map_map.
+    rewrite (map_ext_in _ mkey); [exact Hk|].
+    intros m Hm. rewrite Ef in Hm. apply filter_In in Hm. destruct Hm as [_ Et]. unfold same_tr in Et. apply String.eqb_eq in Et.
+    unfold mkey. now rewrite Et.
+  Qed.
+  Lemma ref_spans_NoDup t : NoDup (map sp_span (ms matched t)).
+  Proof.
+    assert (Hk : NoDup (map (fun sp => (sp_trace sp, sp_span sp)) (ms matched t))).
+    { unfold ms, matched_of. apply NoDup_map_filter. apply NoDup_map_filter. exact spans_of_keys_NoDup. }
+    apply (NoDup_map_inv (fun s => (t, s))). rewrite map_map.
+    rewrite (map_ext_in _ (fun sp => (sp_trace sp, sp_span sp))); [exact Hk|].
+    intros sp Hsp. unfold ms in Hsp. apply filter_In in Hsp. destruct Hsp as [_ Et]. apply String.eqb_eq in Et. now rewrite Et.
+  Qed.
 End SPANS.
 
 Section SINGLE.
@@ -239,5 +259,43 @@ Section SINGLE.
     - rewrite sem_single_round.
       exact (answer_ok (T conds) matched1 (mspan_of parse_float "") (fun _ => eq_refl) (fun _ => eq_refl) (fun _ => eq_refl)
                (mem1 conds Hc) (fun _ => true) (fun _ => true) (fun _ _ => eq_refl) (cap1 conds Hc) c SEL Hans).
+  Qed.
+
+  (* the same WITHOUT the guard spans_capped, judged by result_ok_cap: the traces are exactly right (all, or the `limit` most recent), and
+     every span list holds distinct matched spans of its trace -- all of them when there are at most 100, otherwise 100 of them *)
+  Theorem traceql_correct_single_any_spans n s :
+    plan q1 MSearch c n = Ok s ->
+    exists res, index_rows_g re_match parse_float hash64 c d s = Some res
+                /\ result_ok_cap 100 c (traceql_sem re_match parse_float false c d q1) res = true.
+  Proof.
+    intros Hplan. destruct (plan_ok_conds n s Hplan) as [conds Hc].
+    rewrite (plan_single conds n Hc) in Hplan. injection Hplan as <-.
+    destruct (withs_single conds) as [rest Hw].
+    assert (Hans : exists SEL, grouped_answer (T conds) (fun _ => true) (lim_of c) = Some SEL).
+    { unfold grouped_answer, lim_of. destruct (Z.eqb (limit c) 0); [eexists; reflexivity|].
+      change (map (fun g => ([VInt (g_key g)], g)) (tgroups (T conds) (fun _ => true)))
+        with (map (fun g => enc (g_key g, g)) (tgroups (T conds) (fun _ => true))).
+      rewrite <- (map_map (fun g => (g_key g, g)) enc), sort_by_enc. eexists; reflexivity. }
+    destruct Hans as [SEL Hans].
+    exists (map (fun g => (g_trace g, g_spans g)) SEL). split.
+    - unfold index_rows_g. rewrite Hw. cbn [eval_until_g].
+      change 12 with (S 11). rewrite eval_sel_S.
+      rewrite (index_search_bridge re_match parse_float hash64 c d e "" conds Hkeys Hc Hlits Hlen Hdepth).
+      change (String.eqb "index_search" "index_grouped") with false. cbv iota.
+      rewrite eval_sel_S. unfold grouped1.
+      rewrite (grouped_bridge re_match parse_float hash64 [(attrs_table c, map row_of_irow d)] "" false
+                 (eval_sel re_match parse_float hash64 [(attrs_table c, map row_of_irow d)] 11)
+                 [("index_search", map mspan_row (T conds))] (T conds) eq_refl None (fun _ => true) eq_refl
+                 (fun h m0 rest' Hn => ltac:(discriminate Hn)) (fun _ _ => eq_refl)).
+      rewrite Hans. cbn [option_map]. rewrite String.eqb_refl. rewrite map_map.
+      apply all_some_map_ext. intros g _. unfold g_row. cbn [app lookup String.eqb Ascii.eqb Bool.eqb].
+      now rewrite all_some_VStr.
+    - rewrite sem_single_round. unfold result_ok_cap.
+      apply (answer_ok_j (T conds) matched1 (mspan_of parse_float "") (fun _ => eq_refl) (fun _ => eq_refl)
+               (mem1 conds Hc) (fun _ => true) (fun _ => true) (fun _ _ => eq_refl) c (cap_set 100) SEL); [|exact Hans].
+      intros g Hg.
+      apply (grp_spans_cap (T conds) matched1 (mspan_of parse_float "") (fun _ => eq_refl) (fun _ => eq_refl) (mem1 conds Hc) g Hg).
+      + exact (group_spans_NoDup' re_match parse_float c d e "" conds g Hg).
+      + exact (ref_spans_NoDup re_match parse_float c d e (g_trace g)).
   Qed.
 End SINGLE.
